@@ -201,3 +201,15 @@ for n1, n2 in (('O', 'CO'), ('CO', 'O'), ('H', 'N')):
              args={'specie_name': Const(n1), 'T': Real(100., 3000.), n1 + '_kwargs': DictOf({'x': Real(0., 1.)}),
                    n2 + '_kwargs': DictOf({'x': Real(0., 1.)})},
              ensures=[('own-block-only', "result == {'T': T, 'x': %s_kwargs['x']}" % n1)], cross_check=False)
+
+# ---- species built without a misc_models argument: what one species gets does not depend on the species built before it -------
+for kind in ('Nasa', 'Nasa9', 'Shomate'):
+    for first, second, n_adj in (('G', 'S', 0), ('G', None, 0), ('S', 'G', 1), ('G', 'G', 1)):
+        lemma('default-models-are-per-species[%s,%s-then-%s]' % (kind, first, second), P, forall=dict(), given=[],
+              prove=[('adjustment-count', 'spec.mix.count_adj(spec.mix.built_after(%r, %r, %r).misc_models) == %d'
+                      % (kind, first, second, n_adj)),
+                     ('nothing-else-attached', 'len(spec.mix.others(spec.mix.built_after(%r, %r, %r).misc_models)) == 0'
+                      % (kind, first, second))])
+
+from contracts import helpers
+helpers.install(P, 'kwargs')
